@@ -202,8 +202,89 @@ func c13Run(c *fw.Ctx, idx int, sc c13Scenario) {
 	c.Case(fmt.Sprintf("%+v", sc), true)
 }
 
+// c13ReconnectWindow: the session with the will loses its connection exactly while its own
+// client's new CONNECT is being set up - after the old record was removed, before the new
+// one exists (hook H2 holds the accepting goroutine there). It did not DISCONNECT: its will
+// is due.
+func c13ReconnectWindow(c *fw.Ctx, idx int) {
+	fw.LogCase("C13 reconnect-window %d", idx)
+	cl := kit.NewCluster(kit.WorkDir("c13r"))
+	defer cl.Close()
+	n, err := cl.AddNode(kit.NodeOpts{ID: 1, Auth: kit.PredictableAuth()})
+	if err != nil {
+		c.Inconclusive("cannot start node: " + err.Error())
+		return
+	}
+	clientID := fmt.Sprintf("rw-%d", idx)
+	tag := fmt.Sprintf("rw-will-%d", idx)
+	w, err := n.MustConnect(kit.ConnectOpts{ClientID: fmt.Sprintf("rw-watch-%d", idx), KeepAlive: 600, Clean: true})
+	if err != nil {
+		c.Inconclusive("connect: " + err.Error())
+		return
+	}
+	defer w.Close()
+	if err := w.Subscribe([]string{"rw/#", "zz/rw"}, []int{idx % 2, 0}); err != nil {
+		c.Inconclusive("subscribe: " + err.Error())
+		return
+	}
+	old, err := n.MustConnect(kit.ConnectOpts{ClientID: clientID, KeepAlive: 600, Clean: true, Will: true, WillTopic: "rw/status", WillPayload: []byte(tag), WillQos: idx % 3})
+	if err != nil {
+		c.Inconclusive("connect: " + err.Error())
+		return
+	}
+	defer old.Close()
+	reached, release := kit.BlockAt("setup.afterDeleteOld", clientID+"#2")
+	done := make(chan struct{})
+	var newer *kit.Client
+	go func() {
+		newer, _, _ = n.Connect(kit.ConnectOpts{ClientID: clientID, KeepAlive: 600, Clean: true})
+		close(done)
+	}()
+	select {
+	case <-reached:
+		c.Observe("reconnect_window_reached", 1)
+	case <-time.After(kit.DefaultWait):
+		release()
+		c.Inconclusive("reconnect window: the setup point was not reached")
+		return
+	}
+	old.Close() // connection loss inside the window
+	pollGone(10*time.Second, func() []string {
+		if n.Local.Get(clientID+"#1") != nil {
+			return []string{"still registered"}
+		}
+		return nil
+	})
+	time.Sleep(30 * time.Millisecond)
+	release()
+	<-done
+	if newer != nil {
+		defer newer.Close()
+	}
+	desc := fmt.Sprintf("reconnect window %d: the session with the will lost its connection after its record had been removed by its own client's new CONNECT and before the new record existed", idx)
+	if _, _, err := w.WaitFor(0, 20*time.Second, func(e kit.Event) bool { return e.Pkt.Type == kit.PUBLISH && string(e.Pkt.Payload) == tag }); err != nil {
+		c.Violation("will-not-delivered:reconnect-window", desc+": its will was never published", map[string]interface{}{"scenario": idx})
+		return
+	}
+	time.Sleep(100 * time.Millisecond)
+	n2 := 0
+	ids := map[int]bool{}
+	for _, p := range w.Publishes() {
+		if string(p.Payload) == tag && !(p.Qos > 0 && ids[p.ID]) {
+			n2++
+			ids[p.ID] = true
+		}
+	}
+	c.Observe("wills_expected", 1)
+	c.Observe("watchers_checked", 1)
+	c.Case(fmt.Sprintf("reconnect-window|%d", idx), true)
+	if n2 != 1 {
+		c.Violation("will-duplicated:reconnect-window", fmt.Sprintf("%s: the watcher received the will %d times", desc, n2), nil)
+	}
+}
+
 func runC13(c *fw.Ctx) {
-	c.Rule = "scenarios = termination cause in {connection closed, keep-alive expiry (1 s), second CONNECT, undecodable packet, failure of the hosting node, DISCONNECT} x will QoS 0/1/2 x retain x will topic x placement of the dying session over 1-3 nodes (tenant mount point through the user name); one watcher per node and per filter (exact topic, '+' and '#' variants, one non-matching), QoS 0 or 1, all in the dying session's mount point. After the cause (and the code's 3 s delay for node failure) a sentinel barrier; oracle: every matching watcher on a surviving node received the will exactly once (QoS 1 retransmissions with the same identifier discounted) on the topic the client specified; nobody after DISCONNECT; non-matching watchers nothing. distinct = scenario parameters; non-trivial = all"
+	c.Rule = "scenarios = termination cause in {connection closed, keep-alive expiry (1 s), second CONNECT, undecodable packet, failure of the hosting node, DISCONNECT} x will QoS 0/1/2 x retain x will topic x placement of the dying session over 1-3 nodes (tenant mount point through the user name); one watcher per node and per filter (exact topic, '+' and '#' variants, one non-matching), QoS 0 or 1, all in the dying session's mount point. Plus: connection loss inside the window of the client's own re-CONNECT (old record removed, new one not yet created; hook H2 gate). After the cause (and the code's 3 s delay for node failure) a sentinel barrier; oracle: every matching watcher on a surviving node received the will exactly once (QoS 1 retransmissions with the same identifier discounted) on the topic the client specified; nobody after DISCONNECT; non-matching watchers nothing. distinct = scenario parameters; non-trivial = all"
 	c.Assume("a stray will published after the barrier would be missed (20 publish workers are unordered); only earlier ones are seen")
 	causes := []string{"close", "keepalive", "second-connect", "garbage", "node-failure", "disconnect"}
 	scen := []c13Scenario{}
@@ -243,6 +324,9 @@ func runC13(c *fw.Ctx) {
 		}(i, sc)
 	}
 	wg.Wait()
+	for i := 0; i < c.Pick(4, 40); i++ {
+		c13ReconnectWindow(c, i)
+	}
 	c.Sample(map[string]interface{}{"scenario": fmt.Sprintf("%+v", scen[0])})
 	c.Sample(map[string]interface{}{"scenario": fmt.Sprintf("%+v", scen[len(scen)-1])})
 	c.Floor("wills_expected", 20)
